@@ -336,6 +336,9 @@ wrap_assign(PSET& pointset,
           full_range_bounds.insert(min_value <= y);
           full_range_bounds.insert(y <= max_value);
         }
+        // `x' itself can be neither translated nor left as it is:
+        // it gets the full range too.
+        goto set_full_range;
       }
     }
 
